@@ -331,6 +331,11 @@ def op_ceroff(rng, below=False):
     if rng.chance(1, 3):
         st["sl"] = max(st["chord"], 10.0 ** (rng.unit() * 2 - 1.5))
     sc = script(rng, rng.choice([0, 2, 60, 200]))
+    if len(sc) >= 2 and rng.chance(1, 4):
+        # Poisson Gaussian branch (mean > 16) with a far negative Box–Muller tail:
+        # sin(2π·0.75) = −1, r = sqrt(−2 ln u₂) up to 8.57 — the count must clamp to 0
+        sc[0] = 0.75 + (rng.unit() - 0.5) * 0.05
+        sc[1] = rng.choice([2.0 ** -53, 2.0 ** -40, 1e-9, 1e-6, 1e-4])
     line = "ceroff %s | %s | %s | %s" % (m["mode"], offload_words(st), cer_mat_words(m), hxs(sc))
     return line, ("ceroff", st, m, sc, below)
 
